@@ -10,6 +10,10 @@ def dispatch (line : String) : String :=
   | "fs" :: rest => FileStream.Drv.handle rest
   | "core" :: rest => Core.Drv.handle rest
   | "argv" :: rest => Argv.Drv.handle rest
+  | "cfg" :: rest => Config.Drv.handle rest
+  | "client" :: rest => Client.Drv.handle rest
+  | "redir" :: rest => Redirector.Drv.handle rest
+  | "signum" :: rest => Signum.Drv.handle rest
   | _ => "bad-op"
 
 partial def loop (h : IO.FS.Stream) (out : IO.FS.Stream) : IO Unit := do
